@@ -30,17 +30,27 @@ pub enum Shape {
 }
 
 pub const LEAF_FNS: [&str; 5] = ["t", "f", "n", "v", "boom"];
-pub const LAZY_OPS: [(&str, usize); 16] = [
+/// leaf kinds: 0..=4 calls of the logging functions above; 5 literal `true`; 6 literal `false`; 7 `i1 / i0` (an error
+/// that is not a call); 8 literal `none` — a fast path keyed on the *syntactic form* of an operand shows only on these
+pub const N_LEAF: usize = 9;
+/// `callx` = a call of a function that is not registered (its argument must still be evaluated first)
+pub const LAZY_OPS: [(&str, usize); 17] = [
     ("if", 3), ("and", 2), ("or", 2), ("eq", 2), ("neq", 2), ("add", 2), ("contains", 2), ("gt", 2), ("vec", 2),
-    ("map", 2), ("call", 1), ("idx0", 1), ("not", 1), ("some", 1), ("bitand", 2), ("idxk", 1),
+    ("map", 2), ("call", 1), ("idx0", 1), ("not", 1), ("some", 1), ("bitand", 2), ("idxk", 1), ("callx", 1),
 ];
 
 pub fn build_shape(s: &Shape, site: &mut i128) -> Expr {
     match s {
-        Shape::Leaf(k) => {
-            *site += 1;
-            call(LEAF_FNS[*k], lit(Value::Int(*site)))
-        }
+        Shape::Leaf(k) => match *k {
+            5 => lit(Value::Bool(true)),
+            6 => lit(Value::Bool(false)),
+            7 => mk_bin("div", lit(Value::Int(1)), lit(Value::Int(0))),
+            8 => lit(Value::None),
+            _ => {
+                *site += 1;
+                call(LEAF_FNS[*k], lit(Value::Int(*site)))
+            }
+        },
         Shape::Node(op, ch) => {
             // map entries: keys in *reverse* construction order, so evaluation order (key order) != construction order
             if *op == "map" {
@@ -58,6 +68,7 @@ pub fn build_shape(s: &Shape, site: &mut i128) -> Expr {
                 }
                 "vec" => Expr::Vec(es),
                 "call" => call("v", es.pop().unwrap()),
+                "callx" => call("missing", es.pop().unwrap()),
                 "idx0" => idxn(es.pop().unwrap(), 0),
                 "idxk" => idxk(es.pop().unwrap(), "a"),
                 "not" | "some" => mk_un(op, es.pop().unwrap()),
@@ -92,7 +103,7 @@ pub fn lazy_cases(rng: &mut Rng, thorough: bool) -> Vec<RsCase> {
     let mut shapes: Vec<Shape> = vec![];
     // depth 1: every operator over every tuple of leaf kinds (exhaustive)
     for (op, ar) in LAZY_OPS {
-        for t in tuples(5, ar) {
+        for t in tuples(N_LEAF, ar) {
             shapes.push(Shape::Node(op, t.into_iter().map(Shape::Leaf).collect()));
         }
     }
@@ -102,20 +113,20 @@ pub fn lazy_cases(rng: &mut Rng, thorough: bool) -> Vec<RsCase> {
     for (op, ar) in LAZY_OPS {
         for pos in 0..ar {
             for (cop, car) in LAZY_OPS {
-                for ct in tuples(5, car) {
+                for ct in tuples(N_LEAF, car) {
                     // restrict the inner tuple to the boolean-ish kinds to bound the count unless thorough
-                    if !thorough && ct.iter().any(|k| *k == 3) {
+                    if !thorough && ct.iter().any(|k| *k == 3 || *k == 8) {
                         continue;
                     }
-                    for others in tuples(3, ar - 1) {
+                    for others in tuples(5, ar - 1) {
                         let mut ch = vec![];
                         let mut oi = 0;
                         for p in 0..ar {
                             if p == pos {
                                 ch.push(Shape::Node(cop, ct.iter().map(|k| Shape::Leaf(*k)).collect()));
                             } else {
-                                // other children: t, f, boom
-                                ch.push(Shape::Leaf([0usize, 1, 4][others[oi]]));
+                                // other children: t, f, boom, literal true, literal false
+                                ch.push(Shape::Leaf([0usize, 1, 4, 5, 6][others[oi]]));
                                 oi += 1;
                             }
                         }
@@ -132,10 +143,10 @@ pub fn lazy_cases(rng: &mut Rng, thorough: bool) -> Vec<RsCase> {
         let ch = (0..ar)
             .map(|_| {
                 if rng.chance(1, 3) {
-                    Shape::Leaf(rng.below(5))
+                    Shape::Leaf(rng.below(N_LEAF))
                 } else {
                     let (cop, car) = *rng.pick(&LAZY_OPS);
-                    Shape::Node(cop, (0..car).map(|_| if rng.chance(1, 2) { Shape::Leaf(rng.below(5)) } else { rng.pick(&d1).clone() }).collect())
+                    Shape::Node(cop, (0..car).map(|_| if rng.chance(1, 2) { Shape::Leaf(rng.below(N_LEAF)) } else { rng.pick(&d1).clone() }).collect())
                 }
             })
             .collect();
